@@ -73,6 +73,27 @@ def check_factory(p):
     eq(devs, "pack_after_refused_id_update", raw2, raw)
     y2 = PduFactory.from_raw(raw2)
     true(devs, "from_raw.type_after_refused_id_update", type(y2) is cls, f"got {type(y2).__name__}")
+    # bit 3 of the fourth header octet (segment metadata flag; it has no meaning for file directives and is a plain attribute of the header):
+    # the factory and its inspectors find the directive octet at 4 + 2*idw + seqw whatever that bit says
+    if kind != "filedata":
+        from spacepackets.cfdp.defs import SegmentMetadataFlag
+
+        o3 = M.build_pdu(p)
+        o3.pdu_header.segment_metadata_flag = SegmentMetadataFlag.PRESENT
+        raw3 = bytearray(raw)
+        raw3[3] |= 0x08
+        if p["conf"]["crc"]:
+            raw3[-2:] = R.crc_bytes(bytes(raw3[:-2]))
+        raw3 = bytes(raw3)
+        eq(devs, "seg_meta_bit_on_directive.pack", bytes(o3.pack()), raw3)
+        eq(devs, "seg_meta_bit_on_directive.inspect.is_file_directive", bool(PduFactory.is_file_directive(raw3)), True)
+        dt3 = PduFactory.pdu_directive_type(raw3)
+        eq(devs, "seg_meta_bit_on_directive.inspect.directive_type", None if dt3 is None else int(dt3), R.directive_code(p))
+        y3 = PduFactory.from_raw(raw3)
+        true(devs, "seg_meta_bit_on_directive.from_raw.type", type(y3) is cls, f"got {type(y3).__name__} for a {kind} PDU")
+        if type(y3) is cls:
+            eq(devs, "seg_meta_bit_on_directive.from_raw.repack", bytes(y3.pack()), raw3)
+            true(devs, "seg_meta_bit_on_directive.from_raw.eq", bool(y3 == o3), "factory result != packed PDU")
     # one holder reused for PDUs of different kinds (through the attribute and through the deprecated alias): accessors follow what is held now
     import warnings
 
